@@ -9,6 +9,7 @@ Definition e_event (e : event) : val :=
   | EConnectFail k => vtag "connect-fail" [VN k]
   | ESql id s => vtag "sql" [VN id; VS s]
   | ECmd c => vtag "cmd" [VS (lit "bash"); VS (lit "-c"); VS c]
+  | EBackground c => vtag "bg" [VS c]
   | ESleep d => vtag "sleep" [VN (d / NANOS); VN (d mod NANOS)]
   | EShutdown id => vtag "shutdown" [VN id]
   | EPanicked => vtag "panicked" []
